@@ -372,6 +372,19 @@ def np_concatenate(it, arrs, axis=0, **k):
     return LArr((offs[-1],), elem, A._result_kind(ls))
 
 
+@np_fn('ix_')
+def np_ix_(it, *seqs):
+    """open mesh from 1-D index sequences (numpy's own construction on concrete indices; a symbolic boolean mask is case-split first)"""
+    out = []
+    for q in seqs:
+        q = q if is_arr(q) else to_carr(q)
+        q = A.concretise_mask(it.ctx, q)
+        if not isinstance(q, CArr) or any(is_sym(v) for v in q.data.flat):
+            raise Unsupported('np.ix_ on symbolic indices')
+        out.append(np.array([bool(v) for v in q.data], dtype=bool) if q.kind == 'bool' else np.array([int(v) for v in q.data], dtype=np.int64))
+    return tuple(CArr(np.array(r, dtype=object), 'int') for r in np.ix_(*out))
+
+
 @np_fn('array_split')
 def np_array_split(it, a, sections, axis=0):
     """contract (integer number of sections k, 1-D): k consecutive views; the first n % k have n // k + 1 entries, the others n // k"""
@@ -1538,6 +1551,19 @@ def la_norm(it, a, ord=None, **k):
     if ord is not None:
         raise Unsupported('norm ord')
     a = a if is_arr(a) else to_carr(a)
+    axis = k.pop('axis', None)
+    if k:
+        raise Unsupported('norm keyword ' + ','.join(k))
+    if axis is not None and not (a.ndim == 1 and conc(axis) in (0, -1)):
+        # vector norm along one axis of a 2-D array: one Euclidean norm per line
+        if not (isinstance(a, CArr) and a.ndim == 2):
+            raise Unsupported('norm along an axis of a symbolic-shape array')
+        ax = conc(axis) % 2
+        lines = [a.data[:, j] for j in range(a.shape[1])] if ax == 0 else [a.data[i, :] for i in range(a.shape[0])]
+        out = np.empty((len(lines),), dtype=object)
+        for q, ln in enumerate(lines):
+            out[q] = la_norm(it, CArr(np.array(list(ln), dtype=object), a.kind))
+        return CArr(out, 'real')
     sq = lambda x: V.add(V.mul(V.real_part(x), V.real_part(x)), V.mul(V.imag_part(x), V.imag_part(x)))
     if isinstance(a, CArr):
         s = functools.reduce(V.add, [sq(v) for v in a.data.flat], 0)
